@@ -231,10 +231,11 @@ func (s *LifeScenario) Check(k *sim.Kernel) []sim.Violation {
 	var rounds []*lifeRound
 	var shutdowns []*callRec
 	type bind2Rec struct {
-		kind        string
+		kind, task  string
 		invoke, ret uint64
 		err         string
 		returned    bool
+		bound       bool // it got as far as binding a listener: it was not refused
 	}
 	var bind2s []*bind2Rec
 	done := false
@@ -265,7 +266,7 @@ func (s *LifeScenario) Check(k *sim.Kernel) []sim.Violation {
 				}
 			}
 		case "bind2.call":
-			bind2s = append(bind2s, &bind2Rec{kind: e.Data, invoke: e.Seq})
+			bind2s = append(bind2s, &bind2Rec{kind: e.Data, task: e.Task, invoke: e.Seq})
 		case "bind2.return":
 			b := bind2s[len(bind2s)-1]
 			b.returned, b.ret, b.err = true, e.Seq, e.Data
@@ -313,7 +314,12 @@ func (s *LifeScenario) Check(k *sim.Kernel) []sim.Violation {
 		return st
 	}
 	for _, b := range bind2s {
-		if (!b.returned || !strings.HasPrefix(b.err, "error")) && b.invoke < polluted {
+		for _, l := range k.Listeners {
+			if l.BoundBy == b.task && l.BindSeq > b.invoke && (!b.returned || l.BindSeq < b.ret) {
+				b.bound = true
+			}
+		}
+		if (!b.returned || !strings.HasPrefix(b.err, "error") || b.bound) && b.invoke < polluted {
 			polluted = b.invoke
 		}
 	}
@@ -594,8 +600,8 @@ func (s *LifeScenario) Check(k *sim.Kernel) []sim.Violation {
 				}
 				continue
 			}
-			if !strings.HasPrefix(b.err, "error") {
-				out = append(out, vio("second-bind", "second-"+b.kind+"-accepted", "a second %s issued (seq %d) while the first serving call was blocked in Accept returned %q instead of being refused", b.kind, b.invoke, b.err))
+			if !strings.HasPrefix(b.err, "error") || b.bound {
+				out = append(out, vio("second-bind", "second-"+b.kind+"-accepted", "a second %s issued (seq %d) while the first serving call was blocked in Accept returned %q (bound a listener: %v) instead of being refused", b.kind, b.invoke, b.err, b.bound))
 			}
 		}
 	}
